@@ -179,6 +179,14 @@ def r2(ctx: Ctx) -> None:
     if not area_ok:
         ctx.report(chk.where, "selfcheck-area", "the self-check does not assert |sum of region areas - die area| < tolerance over all four lists",
                    lineno=chk.node.lineno)
+    # the pairwise test lets overlaps of up to the area tolerance pass (overlap() is 'area_overlap > area_epsilon'); the
+    # area sum is what refuses those, so its own tolerance has to be the finer (distance-class) one
+    coarse = [t for st in c if st[0] == "assert" for t in (set(st[1][1]) if st[1][0] == "and" else {st[1]})
+              if _area_sum_test(t) and atoms_of(t, lambda x: x[0] == "c" and x[1][0] == "a" and x[1][2] == "area_epsilon")]
+    ctx.site(chk.where, "area-sum tolerance is finer than the tolerance of the pairwise overlap test", coarse=len(coarse))
+    if coarse:
+        ctx.report(chk.where, "selfcheck-area-tolerance", "the area-sum assertion uses the area tolerance, the very slack the pairwise overlap test already "
+                   "grants: a thin real overlap (below area_epsilon) passes both checks and an overlapping description is accepted", lineno=chk.node.lineno)
 
 
 def _corner(v: S, corner: str, axis: str) -> S:
@@ -461,6 +469,14 @@ def r4(ctx: Ctx) -> None:
         spc = ("c", ("a", ("a", ("self",), "_specialized_regions"), "append"), (v,), ())
         cond = mk_eq(("a", v, "region"), k_str(kw_value(ctx, "KW_BLOCKAGE")))
         ok = body in ((("expr", ("ite", cond, blk, spc)),), (("if", cond, (("expr", blk),), (("expr", spc),)),))
+    fx = [st for st in ci if st[0] == "set" and st[1] == ("a", ("self",), "_fixed")]
+    netl = ("p", 1)
+    from framelint.canon import mk_ite, K_NONE
+    want_fx = mk_ite(("cmp", "is", netl, K_NONE), ("list", ()), ("c", ("a", netl, "fixed_rectangles"), (), ()))
+    ctx.site(init.where, "the fixed regions are all fixed rectangles of the netlist (none dropped), [] without a netlist")
+    if len(fx) != 1 or deref(fx[0][2], defs_) != want_fx:
+        ctx.report(init.where, "fixed-list", "the die does not take every fixed rectangle of its netlist as a fixed region: a rectangle that is filtered out is "
+                   "reported as free ground (and an invalid one escapes the self-check)", lineno=init.node.lineno)
     if not ok:
         ctx.report(init.where, "region-distribution", "the constructor does not store every parsed region unchanged in exactly one of blockages / specialised regions",
                    lineno=init.node.lineno)
@@ -741,3 +757,12 @@ def r8(ctx: Ctx) -> None:
                 ctx.report(g.where, f"exact-grid-lookup {ast.unparse(bad)[:80]}", f"{g.qualname} looks a coordinate up exactly in the tolerance-merged boundary lists: "
                            "a side that differs from the kept representative by round-off lands one grid line off", lineno=bad.lineno)
     ctx.site(DIE, "no exact lookup (bisect/index/==/in) of coordinates in _x / _y", functions=n)
+
+
+
+@rule("C01", "R9.geometry-primitives", "SHARED(C18)",
+      "the geometric tests the die's self-check and cell marking are built from are the exact ones: Rectangle.overlap / area_overlap / area / bounding_box / point_inside satisfy the C18 rules (symmetries, strictness conventions, overlap-area identity, containment definition) -- evaluated here for the helpers the die calls", floor=8)
+def shared_geometry(ctx: Ctx) -> None:
+    from . import C18 as _c18
+    from .common import support
+    support(ctx, [_c18.r1, _c18.r2, _c18.r3, _c18.r4, _c18.r6, _c18.r7], {"Rectangle.overlap", "Rectangle.area_overlap", "Rectangle.area", "Rectangle.bounding_box", "Rectangle.point_inside"})
